@@ -53,6 +53,9 @@ type World struct {
 	Seed  int64
 	Verif string
 	Extra map[string]any
+	// Wants reports whether the property being decided keeps obligations of a
+	// rule (expensive rules are skipped when nobody keeps them)
+	Wants func(rule string) bool
 }
 
 var pkgKeys = []string{"20", "30", "31", "40"}
